@@ -211,8 +211,14 @@ def func_fit(x, y, ncoeff, invvar=None, function_name='legendre', ia=None,
     #
     igood = (invvar > 0).nonzero()[0]
     ngood = len(igood)
-    res = np.zeros((ncoeff,), dtype=x.dtype)
-    yfit = np.zeros(x.shape, dtype=x.dtype)
+    #
+    # The coefficients are real numbers in the common precision of x and y,
+    # whatever the type or byte order of x (integer pixel positions,
+    # float32 positions with float64 values).
+    #
+    ftype = np.result_type(x.dtype, y.dtype, np.float32)
+    res = np.zeros((ncoeff,), dtype=ftype)
+    yfit = np.zeros(x.shape, dtype=ftype)
     if ngood == 0:
         pass
     elif ngood == 1:
@@ -256,7 +262,6 @@ def func_fit(x, y, ncoeff, invvar=None, function_name='legendre', ia=None,
         if nparams > 1:
             # beta = np.dot(ysub * (invvar > 0), finalarr.T)
             beta = np.dot(ysub * invvar, finalarr.T)
-            assert beta.dtype == x.dtype
             # uu,ww,vv = np.linalg.svd(alpha, full_matrices=False)
             res[nonfix] = np.linalg.solve(alpha, beta)
         else:
